@@ -225,12 +225,15 @@ impl TypeCollector {
         #[cfg(feature = "verif-hooks")]
         let used_structs: Vec<(&String, &StructInfo)> =
             used_structs_owned.iter().map(|(k, v)| (k, v)).collect();
-        used_structs
+        let mut contexts: Vec<StructContext> = used_structs
             .iter()
             .map(|(name, struct_info)| {
                 StructContext::new(config).from_struct_info(name, struct_info, visitor)
             })
-            .collect()
+            .collect();
+        // deterministic declaration order (the map's iteration order is random per process)
+        contexts.sort_by(|a, b| a.name.cmp(&b.name));
+        contexts
     }
 
     /// Create FieldContext instances from StructInfo using the provided visitor
